@@ -1,9 +1,11 @@
 import CnlModel.ElasticScaled
 import CnlModel.Layered
+import CnlModel.Parse
+import CnlModel.Wide
 /-!
 # `+ - *` and unary `-` of scaled_integer over wrapped representations (C01, table `C01w`)
 
-Three operand kinds that the built-in / plain elastic grids of C01 do not reach.  No new arithmetic: every
+Five operand kinds that the built-in / plain elastic grids of C01 do not reach.  No new arithmetic: every
 function composes the existing layer models.
 
 * **`scaled_integer<overflow_integer<T, tag>, power<e, radix>>`, every tag** (`binO`, `negO`).
@@ -27,6 +29,18 @@ function composes the existing layer models.
   **in its own (promoted) type** (`scaleInt`, also for a shift of 0) —, then the representation-level operator turns
   the built-in operand into `elastic_integer<digits T, set_width_t<T, width N>>` (`elastic_integer/from_value.h`:
   the signedness of `T`, the width of the elastic operand's narrowest type) and `Elastic.binOp` does the rest.
+
+* **`scaled_integer<wide_integer<D, N>, power<e, radix>>` with MULTI-WORD storage** (`wwBin`; `D` above
+  `max_digits<N>`, storage `uintwide_t` of `⌈(D + sign) / width N⌉` limbs, `Wide.storage`).  `wide_integer/scale.h`
+  sends every wide_integer to `default_scale`: `s * power_value<S, k, radix>()`, a product **in the wide type** (radix^k,
+  not 2^k, whatever the storage); `+ - *` of two wide_integers (`wide_tag/custom_operator.h`) give
+  `wide_integer<max(D1, D2), N>` and operate on the storage, i.e. modulo `2^(limbs·width)` in two's complement
+  (`wrapTo`; that the limb routines of `uintwide_t` compute exactly that is C10's subject).  Modelled for operands of
+  the same narrowest type and limb count (the digits may differ).
+* **a `cnl::constant<V>` operand** (`binC`, and `Opnd.scb` for elastic representations): `from_value<scaled_integer<Rep,
+  power<E, Radix>>, constant<V>>` (`scaled_integer/num_traits.h`) is `scaled_integer<set_digits_t<int, max(31,
+  used_digits V - trailing_bits V)>, power<trailing_bits V>>` — always a *signed* built-in representation, whatever
+  `Rep` (`Parse.makeScaledInteger`) —, and the operator is then the one between two scaled_integers.
 
 Lean core only.
 -/
@@ -75,11 +89,14 @@ def negOE (_tag : OvTag) (x : ESNum) : Res ESNum := ElasticScaled.neg x
 inductive Opnd where
   | es (x : ESNum)
   | builtin (ty : IntTy) (v : Int)
+  /-- a `scaled_integer<ty, power<e>>` over a built-in integer (what a `constant<V>` operand becomes) -/
+  | scb (ty : IntTy) (e : Int) (v : Int)
 deriving Repr, DecidableEq
 
 def Opnd.exp : Opnd → Int
   | .es x => x.exp
   | .builtin _ _ => 0
+  | .scb _ e _ => e
 
 /-- `from_value<elastic_integer<_, N>, T>`: `elastic_integer<digits T, set_width_t<T, width N>>` -/
 def ofBuiltin (n : IntTy) (ty : IntTy) (v : Int) (e : Int) : ESNum := ⟨ty.digits, ⟨n.bits, ty.signed⟩, e, v⟩
@@ -87,6 +104,7 @@ def ofBuiltin (n : IntTy) (ty : IntTy) (v : Int) (e : Int) : ESNum := ⟨ty.digi
 def Opnd.raw (n : IntTy) : Opnd → ESNum
   | .es x => x
   | .builtin ty v => ofBuiltin n ty v 0
+  | .scb ty e v => ofBuiltin n ty v e
 
 /-- the operand at the exponent `exp - k` (the two exponents differ) -/
 def Opnd.align (n : IntTy) (o : Opnd) (k : Nat) : Res ESNum :=
@@ -95,6 +113,11 @@ def Opnd.align (n : IntTy) (o : Opnd) (k : Nat) : Res ESNum :=
   | .builtin ty v =>
     match scaleInt (k : Int) 2 (ty, v) with
     | .ok r => .ok (ofBuiltin n r.1 r.2 (-(k : Int)))
+    | .ub u => .ub u
+    | _ => .ill "power_value: attempted operation will result in overflow"
+  | .scb ty e v =>
+    match scaleInt (k : Int) 2 (ty, v) with
+    | .ok r => .ok (ofBuiltin n r.1 r.2 (e - (k : Int)))
     | .ub u => .ub u
     | _ => .ill "power_value: attempted operation will result in overflow"
 
@@ -115,5 +138,66 @@ def binOpB (n : IntTy) (op : BinOp) (s t : Opnd) : Res ESNum :=
     let z ← Elastic.binOp op (s.raw n).toE (t.raw n).toE
     pure (ofE z (s.exp + t.exp))
   | _ => .ill "operator outside the model"
+
+/-! ## a `cnl::constant<V>` operand -/
+
+/-- `from_value<scaled_integer<Rep, power<E, Radix>>, constant<V>>{}(constant<V>{})`: independent of `Rep` -/
+def constNum (v : Int) : Res Num := Parse.makeScaledInteger v >>= fun m => .ok (m.ty, m.value)
+
+/-- the same as an operand next to an elastic representation -/
+def constOpnd (v : Int) : Res Opnd :=
+  constNum v >>= fun c =>
+    match c.1 with
+    | .sc (.int t) e 2 => .ok (.scb t e c.2)
+    | _ => .ill "constant: not a scaled built-in"
+
+/-- `x op constant<v>{}` (`left = false`) / `constant<v>{} op x` for a scaled_integer `x` over a built-in integer -/
+def binC (op : BinOp) (left : Bool) (x : Num) (v : Int) : Res Num :=
+  constNum v >>= fun c => if left then Layered.bin op c x else Layered.bin op x c
+
+/-- the same for `x : scaled_integer<elastic_integer<D, N>, power<e>>` -/
+def binCE (op : BinOp) (left : Bool) (x : ESNum) (v : Int) : Res ESNum :=
+  constOpnd v >>= fun c => if left then binOpB x.narrowest op c (.es x) else binOpB x.narrowest op (.es x) c
+
+/-! ## multi-word wide_integer representation -/
+
+/-- `scaled_integer<wide_integer<digits, narrowest>, power<exp, radix>>`, value of the storage -/
+structure WNum where
+  digits : Nat
+  narrowest : IntTy
+  exp : Int
+  value : Int
+deriving Repr, DecidableEq
+
+/-- two's-complement reduction to `N` bits -/
+def wrapTo (N : Nat) (signed : Bool) (v : Int) : Int :=
+  let m := v % (2 : Int)^N
+  if signed && decide (m ≥ (2 : Int)^(N - 1)) then m - (2 : Int)^N else m
+
+def wFmt (d : Nat) (n : IntTy) : Option Wide.Fmt :=
+  match Wide.storage d n with
+  | .multi f => some f
+  | .builtin _ => none
+
+/-- `default_scale<k, radix, wide_integer<…>>`: `s * power_value<S, k, radix>()` in the storage -/
+def wScale (f : Wide.Fmt) (radix k : Nat) (v : Int) : Int :=
+  wrapTo f.N f.signed (v * wrapTo f.N f.signed ((radix : Int)^k))
+
+def wwBin (radix : Nat) (op : BinOp) (x y : WNum) : Res WNum :=
+  match wFmt x.digits x.narrowest, wFmt y.digits y.narrowest with
+  | some fx, some fy =>
+    if fx ≠ fy ∨ x.narrowest ≠ y.narrowest then .ill "operands of different storage: outside the model" else
+    let d := max x.digits y.digits
+    let w := wrapTo fx.N fx.signed
+    match op with
+    | .mul => .ok ⟨d, x.narrowest, x.exp + y.exp, w (x.value * y.value)⟩
+    | .add | .sub =>
+      let c := min x.exp y.exp
+      -- equal exponents: the operator of the representation, no scaling; otherwise BOTH operands are scaled
+      let a := if x.exp = y.exp then x.value else wScale fx radix (x.exp - c).toNat x.value
+      let b := if x.exp = y.exp then y.value else wScale fx radix (y.exp - c).toNat y.value
+      .ok ⟨d, x.narrowest, c, w (if op = .add then a + b else a - b)⟩
+    | _ => .ill "operator outside the model"
+  | _, _ => .ill "single-word storage: outside this model"
 
 end Cnl.ScaledReps
